@@ -6,4 +6,4 @@ require github.com/pbenner/autodiff v0.0.0
 
 replace github.com/pbenner/autodiff => /repo
 
-require github.com/pbenner/threadpool v0.0.0-20191122191339-0302c226b91e // indirect
+require github.com/pbenner/threadpool v0.0.0-20191122191339-0302c226b91e
